@@ -376,7 +376,7 @@ def actFinish (s : State) (a : FId) : Call → State × Option Exc
       else ((setOutcome s a (.result v)).1, none)                 --         self.set_result(result)
   | .raise e =>
       if e.isException then                                       -- except Exception as exception:
-        if (s.st a).done then (s, some e)                         --   if self.done(): raise   (cancelled while running)
+        if (s.st a).done then (s, none)                           --   if self.done(): log it (cancelled while running, e94edb5)
         else ((setOutcome s a (.exc e)).1, none)                  --   self.set_exception(exception)
       else (s, some e)                                            -- a BaseException propagates out of run()
 
